@@ -652,21 +652,7 @@ func c07GenRun(r *vg.Rand, vals []c07Val, pool int, kind int, fracIdx int) *c07R
 	}
 	run.slots = slots
 
-	// reference tallies (big integers; no int64 arithmetic)
-	posMsg := func(ts int64) c07Msg { return c07Msg{pre, run.chain, run.h, run.cr, run.bid, ts} }
-	adrMsg := func(ts int64) c07Msg { return c07Msg{pre, run.chain, run.ch, run.cr, run.cb, ts} }
-	run.posTally, run.adrTally = new(big.Int), new(big.Int)
-	for i, v := range vals {
-		if i < len(slots) && c07Good(slots[i], base, v.key, posMsg(slots[i].ts)) {
-			run.posTally.Add(run.posTally, big.NewInt(v.power))
-		}
-		for _, s := range slots {
-			if s.addr == v.addr && c07Good(s, base, v.key, adrMsg(s.ts)) {
-				run.adrTally.Add(run.adrTally, big.NewInt(v.power))
-				break
-			}
-		}
-	}
+	run.reference(vals)
 	// trust level
 	f := c07Fracs[fracIdx%(len(c07Fracs)+6)%len(c07Fracs)]
 	run.num, run.den = f[0], f[1]
@@ -679,6 +665,39 @@ func c07GenRun(r *vg.Rand, vals []c07Val, pool int, kind int, fracIdx int) *c07R
 		}
 		run.num = uint64(t)
 	}
+	return run
+}
+
+// reference tallies (big integers; no int64 arithmetic)
+func (run *c07Run) reference(vals []c07Val) {
+	pre := int64(tmproto.PrecommitType)
+	posMsg := func(ts int64) c07Msg { return c07Msg{pre, run.chain, run.h, run.cr, run.bid, ts} }
+	adrMsg := func(ts int64) c07Msg { return c07Msg{pre, run.chain, run.ch, run.cr, run.cb, ts} }
+	run.posTally, run.adrTally = new(big.Int), new(big.Int)
+	for i, v := range vals {
+		if i < len(run.slots) && c07Good(run.slots[i], run.base, v.key, posMsg(run.slots[i].ts)) {
+			run.posTally.Add(run.posTally, big.NewInt(v.power))
+		}
+		for _, s := range run.slots {
+			if s.addr == v.addr && c07Good(s, run.base, v.key, adrMsg(s.ts)) {
+				run.adrTally.Add(run.adrTally, big.NewInt(v.power))
+				break
+			}
+		}
+	}
+}
+
+// F14 corner inside the range light.ValidateTrustLevel accepts: the level
+// 6148914691236517205/18446744073709551615 (exactly 1/3) has a denominator that converts to
+// int64(-1); with total power 1 and only a zero-power member signing, the needed power is
+// negative and the commit is accepted with no power behind it.
+func c07DirectedF14(vals []c07Val) *c07Run {
+	base := c07Base{chain: 1, h: 7, r: 0, bid: 1}
+	run := &c07Run{kind: "directed/F14-validated-level-zero-power-signer", base: base,
+		chain: 1, bid: 1, h: 7, ch: 7, cr: 0, cb: 1, num: 6148914691236517205, den: math.MaxUint64}
+	run.slots = []c07Slot{{flag: int64(BlockIDFlagAbsent)},
+		{flag: int64(BlockIDFlagCommit), addr: vals[1].addr, ts: 3, d: c07Desc{kind: 'B', k: vals[1].key, ts: 3}}}
+	run.reference(vals)
 	return run
 }
 
@@ -715,6 +734,32 @@ func (run *c07Run) term() string {
 		vg.Tup(strconv.FormatUint(run.num, 10), strconv.FormatUint(run.den, 10)), run.resF, run.resL, run.resT)
 }
 
+// suspect marks, for the reader of a replay file only (the verdict is computed in Coq), the run
+// on which the property's monitors fail
+func (run *c07Run) suspect(nvals int, total *big.Int, wf bool) string {
+	if !wf {
+		return ""
+	}
+	three := func(x *big.Int) *big.Int { return new(big.Int).Mul(big.NewInt(3), x) }
+	two := func(x *big.Int) *big.Int { return new(big.Int).Mul(big.NewInt(2), x) }
+	short := nvals != len(run.slots) || three(run.posTally).Cmp(two(total)) <= 0
+	out := ""
+	if run.okF && short {
+		out += " <<< VerifyCommit ACCEPTED WITHOUT +2/3 OF VALID FOR-BLOCK SIGNATURES"
+	}
+	if run.okL && short {
+		out += " <<< VerifyCommitLight ACCEPTED WITHOUT +2/3 OF VALID FOR-BLOCK SIGNATURES"
+	}
+	if run.okT && run.num <= math.MaxInt64 && run.den <= math.MaxInt64 {
+		lhs := new(big.Int).Mul(new(big.Int).SetUint64(run.den), run.adrTally)
+		rhs := new(big.Int).Mul(new(big.Int).SetUint64(run.num), total)
+		if lhs.Cmp(rhs) <= 0 {
+			out += " <<< VerifyCommitLightTrusting ACCEPTED BELOW THE TRUST LEVEL"
+		}
+	}
+	return out
+}
+
 func (run *c07Run) descr(j int, total *big.Int) string {
 	var sb strings.Builder
 	absent := 0
@@ -730,6 +775,15 @@ func (run *c07Run) descr(j int, total *big.Int) string {
 		len(run.slots), absent, sb.String(), run.num, run.den, run.resF, run.resL, run.resT, run.posTally, run.adrTally, total)
 }
 
+func wfNow(vals []c07Val, total *big.Int) bool {
+	for _, v := range vals {
+		if v.power < 0 {
+			return false
+		}
+	}
+	return total.Cmp(big.NewInt(MaxTotalVotingPower)) <= 0
+}
+
 func TestVerifC07Commit(t *testing.T) {
 	root := vg.NewRand(vg.Seed() ^ 0xc07)
 	cs := vg.NewCases("C07", "c07_commit", "TM.C07.Exec")
@@ -738,7 +792,7 @@ func TestVerifC07Commit(t *testing.T) {
 		pool = 260
 	}
 	c07Init(pool)
-	nSets := vg.Scale(160, 8000)
+	nSets := vg.Scale(300, 8000)
 	runsPer := 12
 	var f14Runs, f14BelowLevel, f14BelowLevelValidated int
 	for k := 0; k < nSets; k++ {
@@ -765,12 +819,26 @@ func TestVerifC07Commit(t *testing.T) {
 		}
 		var runsT, runsD []string
 		nontrivial := false
-		for j := 0; j < runsPer; j++ {
+		nRuns := runsPer
+		if k == 0 { // directed set for the F14 corner: total power 1, one zero-power member
+			vals, dist = []c07Val{{addr: 1, key: 0, power: 1}, {addr: 2, key: 1, power: 0}}, "directed/F14"
+			vs = c07MakeSet(vals)
+			total.SetInt64(1)
+			valsT = []string{vg.Tup("1", "0", "1"), vg.Tup("2", "1", "0")}
+			valsD = []string{"(1,0,1)", "(2,1,0)"}
+			nRuns++
+		}
+		for j := 0; j < nRuns; j++ {
 			g := k*runsPer + j
-			run := c07GenRun(r.Fork(uint64(1000+j)), vals, pool, g%c07Kinds, g/2)
+			var run *c07Run
+			if j == runsPer {
+				run = c07DirectedF14(vals)
+			} else {
+				run = c07GenRun(r.Fork(uint64(1000+j)), vals, pool, g%c07Kinds, g/2)
+			}
 			run.exec(vs)
 			runsT = append(runsT, run.term())
-			runsD = append(runsD, run.descr(j, total))
+			runsD = append(runsD, run.descr(j, total)+run.suspect(len(vals), total, wfNow(vals, total)))
 			cs.Count("run/"+run.kind, 1)
 			cs.Count(fmt.Sprintf("verdicts/full=%v,light=%v,trusting=%v", run.okF, run.okL, run.okT), 1)
 			if run.kind != "none" && len(vals) >= 2 {
